@@ -68,6 +68,10 @@ structure FilterOut where
   decision : FilterRes
   raised : Option String
 
+instance : Inhabited FilterRes := ⟨⟨false, 0, [], [], .rate⟩⟩
+instance : Inhabited FilterOut := ⟨⟨default, none⟩⟩
+instance : Inhabited Membrane := ⟨⟨[], [], 0, false, none, 0, none, [], [], [], 0, 0⟩⟩
+
 /-- `ThreatLevel.CRITICAL.value` -/
 def critical : Nat := 3
 
